@@ -52,6 +52,11 @@ pub struct Case {
     /// hook (the module's handle_message is never called for it)
     #[serde(default)]
     pub via_element: bool,
+    /// the code that performs the release also asks for the module's shutdown in the same event (Some(true): with a
+    /// restart 500 us later). The shutdown takes effect at the end of that event, so everything released in it still
+    /// has to run in that instant.
+    #[serde(default)]
+    pub shutdown: Option<bool>,
 }
 
 pub struct C06;
@@ -131,6 +136,21 @@ fn do_release(r: &Release) {
 struct W {
     case: Case,
     release: Release,
+    started: bool,
+}
+
+fn request_shutdown(how: Option<bool>) {
+    match how {
+        None => {}
+        Some(false) => {
+            net::log("shutdown-request", 0, 0);
+            current().shutdown();
+        }
+        Some(true) => {
+            net::log("shutdown-request", 1, 0);
+            current().shutdow_and_restart_in(Duration::from_micros(500));
+        }
+    }
 }
 
 impl W {
@@ -151,6 +171,12 @@ impl Module for W {
         stack
     }
     fn at_sim_start(&mut self, _: usize) {
+        if self.started {
+            // second incarnation after a shutdown: nothing to set up again
+            net::log("restarted", 0, 0);
+            return;
+        }
+        self.started = true;
         let yields = self.case.yields;
         let after_wake = move |i: usize| async move {
             for _ in 0..yields {
@@ -291,10 +317,12 @@ impl Module for W {
             };
             if !matches!(rel, Release::None) {
                 let t = du(self.case.t_ms as u128 * 1_000_000);
+                let how = self.case.shutdown;
                 current().join(tokio::spawn(async move {
                     sleep(t).await;
                     net::log("trigger", 0, 0);
                     do_release(&rel);
+                    request_shutdown(how);
                 }));
                 self.release = Release::None;
             }
@@ -310,6 +338,7 @@ impl Module for W {
             net::log("trigger", 0, 0);
             let r = std::mem::replace(&mut self.release, Release::None);
             do_release(&r);
+            request_shutdown(self.case.shutdown);
         } else {
             net::log("later", 0, 0);
         }
@@ -348,15 +377,19 @@ pub fn run_case(case: &Case, probe: bool) -> Result<(bool, Vec<&'static str>, bo
     net::log_clear();
     let mut sim = Sim::new(());
     let timer_trigger = case.timer_trigger && !(matches!(case.mode, Mode::SpawnBurst(_)) && case.local);
+    let element = case.via_element && !timer_trigger && !matches!(case.mode, Mode::SpawnBurst(_));
+    let shutdown = if element || matches!(case.mode, Mode::Sleepers(_)) { None } else { case.shutdown };
     ELEMENT_RELEASE.with(|slot| *slot.borrow_mut() = None);
     sim.node(
         "w",
         W {
             case: Case {
                 timer_trigger,
+                shutdown,
                 ..case.clone()
             },
             release: Release::None,
+            started: false,
         },
     );
     let w = sim.get(&ObjectPath::from("w")).unwrap();
@@ -399,7 +432,14 @@ pub fn run_case(case: &Case, probe: bool) -> Result<(bool, Vec<&'static str>, bo
     if let Some(e) = err {
         vfail!(sig_late, "run() returned an error although every task was released: {e}");
     }
-    vensure!(log.iter().filter(|r| r.kind == "later").count() == 1, "later-event-missing", "the unrelated later event was not handled once");
+    // a module that shut itself down for good does not see the later event; one that restarted in between does
+    let want_later = if shutdown == Some(false) { 0 } else { 1 };
+    vensure!(
+        log.iter().filter(|r| r.kind == "later").count() == want_later,
+        "later-event-missing",
+        "the unrelated later event was handled {} times, expected {want_later}",
+        log.iter().filter(|r| r.kind == "later").count()
+    );
     let mut labels = Vec::new();
     let n = want;
     if n > 61 {
@@ -423,8 +463,11 @@ pub fn run_case(case: &Case, probe: bool) -> Result<(bool, Vec<&'static str>, bo
     if timer_trigger {
         labels.push("timer-trigger");
     }
-    if case.via_element && !timer_trigger && !matches!(case.mode, Mode::SpawnBurst(_)) {
+    if element {
         labels.push("released-by-consuming-processing-element");
+    }
+    if shutdown.is_some() {
+        labels.push("shutdown-requested-in-the-releasing-event");
     }
     let nt = n > 61 || case.yields >= 1;
     Ok((nt, labels, false))
@@ -445,7 +488,7 @@ impl Prop for C06 {
         "proptest: a module whose tasks are parked on Notify / mpsc / oneshot / Semaphore (fan-out of n tasks), on a oneshot chain or a JoinHandle \
          chain of depth d, on a bulk receive of k items in one task, or are spawned as a burst by the trigger, or all sleep until the same instant; n, d, k in 1..300 (quick) / 1..5000 \
          (thorough) with 59..64 and 120..130 over-sampled; 0..3 yield_now() calls inside each task; trigger = handle_message, a consuming processing element (the handler is skipped) or a timer-woken task \
-         at T; an unrelated later event at T2 > T; tokio::spawn or (from synchronous callbacks only) spawn_local. Oracle: every task's log entry \
+         at T, which in 30% of the cases also requests the module's shutdown (with or without restart) in that very event; an unrelated later event at T2 > T; tokio::spawn or (from synchronous callbacks only) spawn_local. Oracle: every task's log entry \
          after its await carries exactly T, exactly one per task, run() is Ok (all joined), the later event is handled once. Non-trivial iff \
          more than 61 tasks/links are involved or a task yields. Excluded (known finding): spawn_local tasks with more than 61 runnable at once, a yield, a bulk receive > 128, or a \
          release performed by a runtime task."
@@ -473,8 +516,17 @@ impl Prop for C06 {
             2 => n.clone().prop_map(Mode::SpawnBurst),
             2 => n.prop_map(Mode::Sleepers),
         ];
-        (mode, prop_oneof![2 => Just(0u8), 1 => 1u8..4], any::<bool>(), proptest::bool::weighted(0.2), 0u16..50, 1u16..5000, proptest::bool::weighted(0.3))
-            .prop_map(|(mode, yields, timer_trigger, local, t_ms, gap_ms, via_element)| Wrapped {
+        (
+            mode,
+            prop_oneof![2 => Just(0u8), 1 => 1u8..4],
+            any::<bool>(),
+            proptest::bool::weighted(0.2),
+            0u16..50,
+            1u16..5000,
+            proptest::bool::weighted(0.3),
+            proptest::option::weighted(0.3, any::<bool>()),
+        )
+            .prop_map(|(mode, yields, timer_trigger, local, t_ms, gap_ms, via_element, shutdown)| Wrapped {
                 case: Case {
                     mode,
                     yields,
@@ -483,6 +535,7 @@ impl Prop for C06 {
                     t_ms,
                     gap_ms,
                     via_element,
+                    shutdown,
                 },
                 probe_known: false,
             })
@@ -510,6 +563,7 @@ impl Prop for C06 {
                     t_ms: 5,
                     gap_ms: 1000,
                     via_element: false,
+                    shutdown: None,
                 },
                 probe_known: true,
             },
